@@ -172,6 +172,8 @@ func c10Drivers() []concParams {
 		{Name: "writers-vs-close", Cfg: "default/bytewise", Clients: [][]string{{"put:a"}, {"put:b"}, {"close"}}, QB: 2, TB: 3},
 		{Name: "overflow-handoff-vs-close", Cfg: "wide/bytewise", Clients: [][]string{{"put:a"}, {"putL:b"}, {"put:a"}, {"close"}}, QB: 2, TB: 3},
 		{Name: "overflow-handoff-vs-readonly", Cfg: "wide/bytewise", Clients: [][]string{{"put:a"}, {"putL:b"}, {"put:a"}, {"ro"}}, QB: 2, TB: 3},
+		{Name: "merged-group-fills-buffer", Cfg: "wide/bytewise", Pre: []string{"putM:a", "putE:b"}, Clients: [][]string{{"put:a"}, {"put:b"}, {"put:a"}}, QB: 2, TB: 3, Expect: "noerr"},
+		{Name: "merged-group-fills-buffer-vs-close", Cfg: "wide/bytewise", Pre: []string{"putM:a", "putE:b"}, Clients: [][]string{{"put:a"}, {"put:b"}, {"close"}}, QB: 2, TB: 3},
 		{Name: "writers-vs-tr", Cfg: "default/bytewise", Clients: [][]string{{"put:a"}, {"put:b"}, {"tr:+a,+b"}}, QB: 2, TB: 2, Expect: "noerr"},
 		{Name: "writers-vs-compact", Cfg: "default/bytewise", Pre: []string{"put:a"}, Clients: [][]string{{"put:a"}, {"put:b"}, {"cr"}}, QB: 1, TB: 2, Expect: "noerr"},
 		{Name: "writers-vs-readonly", Cfg: "default/bytewise", Clients: [][]string{{"put:a"}, {"put:b"}, {"ro"}}, QB: 2, TB: 3},
